@@ -271,7 +271,8 @@ def program(seed, nunits, first_id=0):
         i = first_id + j
         t = g.top()
         units.append({"id": i, "type": render(t, "T%d" % i), "trailing_zs": trailing_zs(t), "has_func": layout_has_func(t) or t[0] == "func" or _elem_func(t),
-                      "recursive_func": mentions_self(t) and layout_has_func(t), "skeleton": skeleton(t), "t": t})
+                      "recursive_func": mentions_self(t) and layout_has_func(t), "skeleton": skeleton(t), "t": t,
+                      "alias_func": (i % 2 == 1) and not mentions_self(t) and (layout_has_func(t) or t[0] == "func")})
         body.append(unit_code(i, t))
     body.append("func main() {")
     for u in units:
